@@ -418,9 +418,11 @@ def explore_engine(ctx, props, n_prim, n_op, n_intr=0, p_template=0.15, op_switc
                 # every worker is inside a call, one of which then FAILS with the error bound already exceeded
                 r2 = random.Random(ctx.seed * 31 + i)
                 w = r2.choice([2, 2, 3])
-                n = w + r2.choice([0, 1, 3])
+                n = w + r2.choice([0, 1, 3, 4])
+                # ... or NOT exceeded (max_errors None / large): the failure must not undo the stop the interrupt caused - nothing
+                # that is still queued may start (shows with the queues that do not rank the sentinels first)
                 case = {"n": n, "edges": [(a, n - 1) for a in range(r2.choice([0, 1, w]))] if n > w else [], "nodes": list(range(n)),
-                        "workers": w, "max_errors": 0, "scheduler": r2.choice(["default", "random", "cheap"]),
+                        "workers": w, "max_errors": r2.choice([0, 0, None, None, 7]), "scheduler": r2.choice(["default", "random", "cheap", "random"]),
                         "failing": {r2.randrange(w): "ValueError"}}
                 intr = w
                 stats["interrupt_then_failure_cases"] = stats.get("interrupt_then_failure_cases", 0) + 1
